@@ -271,7 +271,8 @@ def plan_generate(ctx, rnd, cid0):
               {"what": "dsa-domain", "bits": 1024, "kid": rnd.choice(["d1024", "d512"]), "corr": [], "tape": rnd.choice(["order", "order-2", "ones", "zeros", "one"])},
               {"what": "ecc", "curve": rnd.choice(["P-192", "P-224", "P-256"]), "tape": "order-1"},
               {"what": "ecc", "curve": rnd.choice(["P-192", "P-224", "P-256"]), "tape": rnd.choice(["order", "ones", "zeros", "one", "order-2"])}]
-        g += [{"what": "elgamal", "bits": rnd.choice([161, 168, 176, 184, 192])}, {"what": "elgamal", "bits": rnd.choice([161, 168, 176]), "tape": rnd.choice(["last-zeros", "last-zeros", "last-ones"])}]
+        g += [{"what": "elgamal", "bits": rnd.choice([161, 168, 176, 184, 192])}, {"what": "elgamal", "bits": rnd.choice([161, 168, 176]), "tape": "last-zeros"},
+              {"what": "elgamal", "bits": 161, "tape": "last-ones"}]
         curves = [rnd.choice(["P-192", "P-224"]), "P-256", "P-521" if ctx.seed % 4 == 1 else "P-384", "Ed25519", "Curve25519"]
         if ctx.seed % 3 == 0:                                   # the two long chains (30 s / 20 s of TLC) in one run out of three
             curves.append(["Ed448", "Curve448"][(ctx.seed // 3) % 2])
